@@ -837,6 +837,13 @@ def lax_loaders_pass_the_datum(repo: Repo, res: CheckResult) -> None:
         n += 1
         d = func_params(fn)[0]
         res.evaluated(f"lax-datum:{name}", True)
+        for c in ast.walk(fn):
+            if isinstance(c, ast.Call) and len(c.args) == 1 and not c.keywords and norm(c.args[0]) != d and isinstance(c.func, ast.Name) \
+                    and c.func.id[:1].isupper() | (c.func.id in ("int", "float", "complex", "str", "bytes")) \
+                    and any(isinstance(x, ast.Name) and x.id == d for x in ast.walk(c.args[0])) and not isinstance(c.args[0], ast.Name):
+                res.add(Finding("C02", "DOC.lax-datum-rewritten", m.rel, name, norm(c)[:100],
+                                f"`{norm(c)[:80]}`: the constructor is applied to a rewritten datum; the documented lax rule is "
+                                "\"loaded using the constructor\" -- T(data) for the datum as given", c.lineno))
         for a in ast.walk(fn):
             tg = a.targets if isinstance(a, ast.Assign) else [a.target] if isinstance(a, (ast.AugAssign, ast.AnnAssign)) else []
             if any(isinstance(t, ast.Name) and t.id == d for t in tg):
